@@ -86,6 +86,8 @@ def generate(rng, tier, idx):
         sc['rounds'].append({'edits': GU.gen_edits(rng, {'files': [t['p'] for t in sc['tree'] if t.get('k') == 'file'],
                                                          'dirs': ['']}, rng.choice([0, 0, 1])),
                              'update': u})
+    if rng.random() < 0.25:
+        sc['unlink_fault'] = rng.choice(['EPERM', 'EBUSY', 'EIO', 'EACCES'])
     return sc
 
 
@@ -173,9 +175,25 @@ def observe(sc):
 
 def execute(sc):
     if sc.get('mode') == 'watermark':
-        h = run_history(sc, want_idempotence=False)
+        faults = None
+        if sc.get('unlink_fault_plan') is not None:
+            faults = [dict(sc['unlink_fault_plan'])]
+        elif sc.get('unlink_fault'):
+            # the removal of a superseded Manifest file fails during the LAST save of the history (EPERM, EBUSY, EIO):
+            # the save must not report success with two files left for one Manifest
+            h0 = run_history(copy.deepcopy(sc), want_idempotence=False, audits=False)
+            wr = h0['seams'][0].write_events
+            un = [e for e in wr if e[1] == 'unlink']
+            if un:
+                last_op = max(e[0] for e in wr)
+                first_in_last = [i for i, e in enumerate(un) if e[0] >= last_op - 1]
+                if first_in_last:
+                    faults = [{'kinds': ['unlink'], 'nth': first_in_last[0] + 1, 'errno': sc['unlink_fault']}]
+        h = run_history(sc, want_idempotence=False, faults=faults)
         vs = [v for v in h['violations'] if v['clause'].split('.')[0] in FAMILIES or v['clause'] in WM_AUDIT]
         c = dict(h['counters'])
+        if faults and sum(f_.get('_fired', 0) for f_ in h['seams'][0].faults):
+            c['saves_with_a_failing_unlink'] = 1
         c['mode.watermark'] = 1
         nontrivial = c.get('audited_updates', 0) > 0
         return mk_result(h['seams'], vs, nontrivial, outcome=h['outcome'], dontcare=h['zones'], counters=c, ops=len(h['results']))
